@@ -12,6 +12,14 @@
  * the allocation, expected exception (ValueError exactly for rem of an absent text), and for the observers
  * len/c_str/cmp/eq/mem/hash agreement with libc on the reference (hash: hash(s) == hash($S(ref)) == hash_data(ref)).
  * After EVERY mutation also eq / cmp / hash against the reference text (the String's value is the C string that was written).
+ * Observers judged by the oracle with a reference of its own (not the model, not the library): len — strlen and a byte count;
+ * c_str — strcmp; cmp, lt, gt, le, ge — the sign of strcmp AND of the first differing bytes taken as unsigned char (ref_cmp; a
+ * byte >= 0x80 is greater than every ASCII byte and than the terminator); eq / neq — byte comparison (ref_eq); mem — strstr AND a
+ * try-every-start search (ref_mem); rem — strstr + memmove on the reference buffer; hash — `X sig=str-hash-value` whenever
+ * hash(s) is not MurmurHash64A (seed 0xCe110) of exactly the reference buffer's bytes, computed by the harness's own
+ * implementation (ref_murmur_a, cross-checked against a second formulation and recorded values by ref_selftest at start-up;
+ * `X sig=str-ref-selftest` if THAT fails), after every mutation and at every `hash` op, also for the stack String $S(reference).
+ * Statistic only (`I hash-equal …`, `I hashstat …`): two different texts of equal length seen in one run with the same hash.
  * Formatted writes (pf, show): the reference text is libc's own snprintf of the same format at the same offset of the
  * reference buffer — the whole format in one call when it has at most two specifications and no `%$`, otherwise literal
  * runs verbatim, `%` for `%%`, one snprintf per specification with the correctly typed C value and an independent show for
@@ -74,7 +82,6 @@ static void* v_realloc(void* p, size_t n) {
 static var sobj[NOBJ];
 static char* rtxt[NOBJ];          /* reference text, libc only */
 static size_t rcap[NOBJ];
-static size_t lineno;
 
 static void ref_reserve(int k, size_t n) {
   if (rcap[k] < n + 1) {
@@ -87,6 +94,122 @@ static uint64_t fnv64(const unsigned char* p, size_t n) {
   uint64_t h = 0xcbf29ce484222325ULL;
   for (size_t i = 0; i < n; i++) { h ^= p[i]; h *= 0x100000001b3ULL; }
   return h;
+}
+
+/* ---- independent references for the observers (nothing below calls into the library under test) ----------------------
+ * hash: MurmurHash64A (Austin Appleby's published 64-bit hash for 64-bit platforms), written twice from the algorithm:
+ *   ref_murmur_a: every 8-byte block assembled byte by byte, least significant first (the published code reads the block as a
+ *                 uint64_t on a little-endian machine), the remaining len%8 bytes xor-ed in at 8*j, again byte by byte;
+ *   ref_murmur_b: the shape of the published code — walk a block pointer to `end`, then the fall-through switch over len&7
+ *                 on the bytes AFTER the last full block.
+ * The seed of String_Hash is 0xCe110 (src/Hash.c at the time of writing).  ref_selftest() validates _a against the three
+ * values tests/test.c hard-codes ("Hello", "There", "People": all shorter than one block), against values computed with a third
+ * implementation (Python, arbitrary-precision integers) for lengths 0, 8, 9, 16, 25, 33, 41 with ASCII / control / >= 0x80 bytes,
+ * and _a against _b for every length 0..80 over three byte patterns.  Host assumption: little-endian (as the library's memcpy). */
+#define REF_SEED 0xCe110ULL
+static uint64_t ref_murmur_a(const char* s, size_t n) {
+  const unsigned char* p = (const unsigned char*)s;
+  const uint64_t m = 0xc6a4a7935bd1e995ULL; const int r = 47;
+  uint64_t h = REF_SEED ^ (n * m);
+  size_t nb = n / 8, rest = n % 8;
+  for (size_t b = 0; b < nb; b++) {
+    uint64_t k = 0;
+    for (int j = 7; j >= 0; j--) k = (k << 8) | p[8 * b + (size_t)j];
+    k *= m; k ^= k >> r; k *= m;
+    h ^= k; h *= m;
+  }
+  if (rest) {
+    for (size_t j = 0; j < rest; j++) h ^= (uint64_t)p[8 * nb + j] << (8 * j);
+    h *= m;
+  }
+  h ^= h >> r; h *= m; h ^= h >> r;
+  return h;
+}
+static uint64_t ref_murmur_b(const void* key, size_t len) {
+  const uint64_t m = 0xc6a4a7935bd1e995ULL; const int r = 47;
+  uint64_t h = REF_SEED ^ (len * m);
+  const unsigned char* data = (const unsigned char*)key;
+  const unsigned char* end = data + (len / 8) * 8;
+  while (data != end) {
+    uint64_t k; memcpy(&k, data, 8); data += 8;
+    k *= m; k ^= k >> r; k *= m;
+    h ^= k; h *= m;
+  }
+  const unsigned char* data2 = data;
+  switch (len & 7) {
+    case 7: h ^= (uint64_t)data2[6] << 48;  /* fall through */
+    case 6: h ^= (uint64_t)data2[5] << 40;  /* fall through */
+    case 5: h ^= (uint64_t)data2[4] << 32;  /* fall through */
+    case 4: h ^= (uint64_t)data2[3] << 24;  /* fall through */
+    case 3: h ^= (uint64_t)data2[2] << 16;  /* fall through */
+    case 2: h ^= (uint64_t)data2[1] << 8;   /* fall through */
+    case 1: h ^= (uint64_t)data2[0]; h *= m;
+  }
+  h ^= h >> r; h *= m; h ^= h >> r;
+  return h;
+}
+static int ref_broken;                                     /* the reference failed its own validation: str-hash-value is not judged */
+static void ref_selftest(void) {
+  static const struct { const char* t; uint64_t h; } kv[] = {
+    { "Hello", 4771441285123272284ULL }, { "There", 17415363727859751682ULL }, { "People", 11867268813077774525ULL },   /* tests/test.c */
+    { "", 0xfc7b4ac02e6776a6ULL }, { "abcdefgh", 0xfa368efebf7a5511ULL }, { "abcdefghi", 0x2dce358a55f64ec6ULL },       /* Python */
+    { "user:1001", 0x4e428e33bedf0827ULL }, { "user:1002", 0x38070accb95b59a3ULL }, { "exactly16bytes!!", 0x126e00693149bf10ULL } };
+  for (size_t i = 0; i < sizeof kv / sizeof kv[0]; i++)
+    if (ref_murmur_a(kv[i].t, strlen(kv[i].t)) != kv[i].h) { ref_broken = 1; X("sig=str-ref-selftest line=0 what=the harness's reference MurmurHash64A gives %016llx for \"%s\", the recorded value is %016llx", (unsigned long long)ref_murmur_a(kv[i].t, strlen(kv[i].t)), kv[i].t, (unsigned long long)kv[i].h); }
+  char buf[96];
+  for (int i = 0; i < 33; i++) buf[i] = (char)(1 + i);
+  if (ref_murmur_a(buf, 33) != 0xb45ccbbdcab05e4dULL) { ref_broken = 1; X("sig=str-ref-selftest line=0 what=reference hash of the bytes 01..21 (33 bytes) is wrong"); }
+  for (int i = 0; i < 25; i++) buf[i] = (char)(0x80 + i);
+  if (ref_murmur_a(buf, 25) != 0x5d3e78e244716a2dULL) { ref_broken = 1; X("sig=str-ref-selftest line=0 what=reference hash of the bytes 80..98 (25 bytes) is wrong"); }
+  memset(buf, 0xff, 41);
+  if (ref_murmur_a(buf, 41) != 0x149dcfba71a9a26aULL) { ref_broken = 1; X("sig=str-ref-selftest line=0 what=reference hash of 41 bytes ff is wrong"); }
+  for (int pat = 0; pat < 3; pat++)
+    for (size_t n = 0; n <= 80; n++) {
+      for (size_t i = 0; i < n; i++) buf[i] = (char)(pat == 0 ? 'a' + i % 26 : pat == 1 ? 0x80 + (i * 37) % 128 : 1 + (i * 7) % 31);
+      if (ref_murmur_a(buf, n) != ref_murmur_b(buf, n)) { ref_broken = 1; X("sig=str-ref-selftest line=0 what=the two formulations of the reference hash differ at length %zu (pattern %d)", n, pat); }
+    }
+}
+/* cmp: the sign of the difference of the first differing bytes taken as UNSIGNED char (ISO C 7.24.4), the terminator included */
+static int ref_cmp(const char* a, const char* b) {
+  const unsigned char* x = (const unsigned char*)a; const unsigned char* y = (const unsigned char*)b;
+  size_t i = 0; while (x[i] != 0 && x[i] == y[i]) i++;
+  return x[i] < y[i] ? -1 : x[i] > y[i] ? 1 : 0;
+}
+static size_t ref_len(const char* a) { size_t n = 0; while (a[n] != 0) n++; return n; }
+static int ref_eq(const char* a, const char* b) { size_t n = ref_len(a); if (n != ref_len(b)) return 0; for (size_t i = 0; i < n; i++) if (a[i] != b[i]) return 0; return 1; }
+/* mem: "x is a contiguous run of bytes of t" by trying every start */
+static int ref_mem(const char* t, const char* x) {
+  size_t n = ref_len(t), m = ref_len(x);
+  for (size_t i = 0; i + m <= n; i++) { size_t j = 0; while (j < m && t[i + j] == x[j]) j++; if (j == m) return 1; }
+  return 0;
+}
+
+/* statistic, not a violation: two DIFFERENT texts of EQUAL length seen in this run with the same library hash.  A 64-bit hash
+ * has such pairs, but none is expected among the few thousand texts of a run; a hash that ignores part of the text produces
+ * them in numbers (texts differing only in the ignored bytes), which shows in the evidence next to str-hash-value. */
+#define COLL_N (1u << 15)
+static struct { uint64_t h, d1, d2; size_t len; char small[64]; int used; } coll[COLL_N];
+static size_t coll_texts, coll_pairs, coll_hashed;
+static size_t lineno;
+static void coll_note(uint64_t h, const char* t, size_t l) {
+  coll_hashed++;
+  uint64_t d1 = 0xcbf29ce484222325ULL, d2 = 5381;
+  for (size_t i = 0; i < l; i++) { d1 = (d1 ^ (unsigned char)t[i]) * 0x100000001b3ULL; d2 = d2 * 0x9e3779b97f4a7c15ULL + (unsigned char)t[i] + (d2 >> 41); }
+  size_t i = (size_t)(h ^ (h >> 31)) & (COLL_N - 1);
+  for (int probe = 0; probe < 64; probe++, i = (i + 1) & (COLL_N - 1)) {
+    if (!coll[i].used) {
+      if (coll_texts >= COLL_N / 2) return;
+      coll[i].used = 1; coll[i].h = h; coll[i].d1 = d1; coll[i].d2 = d2; coll[i].len = l; if (l <= 64) memcpy(coll[i].small, t, l);
+      coll_texts++; return;
+    }
+    if (coll[i].h != h || coll[i].len != l) continue;
+    int same = l <= 64 ? memcmp(coll[i].small, t, l) == 0 : (coll[i].d1 == d1 && coll[i].d2 == d2);
+    if (same) return;
+    coll_pairs++;
+    if (coll_pairs <= 6) { char pre[40]; size_t m = l < 16 ? l : 16; for (size_t q = 0; q < m; q++) sprintf(pre + 2 * q, "%02x", (unsigned char)t[q]); pre[2 * m] = 0;
+      I("hash-equal line=%zu len=%zu hash=%016llx a different text of the same length seen earlier has the same hash (statistic) s=%s%s", lineno, l, (unsigned long long)h, l ? pre : "-", l > 16 ? ".." : ""); }
+    return;
+  }
 }
 
 static int hexval(int c) { if (c >= '0' && c <= '9') return c - '0'; if (c >= 'a' && c <= 'f') return c - 'a' + 10; return -1; }
@@ -107,6 +230,20 @@ static void hexpre(const char* s, size_t n, char* out) {
   if (n > 16) strcpy(out + 2*m, "..");
 }
 
+/* the VALUE of hash(): MurmurHash64A of exactly the reference buffer's bytes, judged by the harness's own implementation */
+static size_t n_hash_judged, n_hash_wrong;
+static void judge_hash(const char* when, const char* name, uint64_t hv, const char* ref, size_t rl) {
+  n_hash_judged++;
+  coll_note(hv, ref, rl);
+  if (ref_broken) return;
+  uint64_t want = ref_murmur_a(ref, rl);
+  if (hv != want) {
+    n_hash_wrong++;
+    char pre[40]; hexpre(ref, rl, pre);
+    X("sig=str-hash-value line=%zu what=%s %s hash() of a String of %zu chars (%s) is %016llx, MurmurHash64A (seed 0xCe110) of those bytes is %016llx", lineno, when, name, rl, pre, (unsigned long long)hv, (unsigned long long)want);
+  }
+}
+
 static char* valof(int k) { return ((struct String*)sobj[k])->val; }
 
 /* canonical dump + direct oracle on object k after op `name` */
@@ -123,7 +260,12 @@ static void dump(const char* name, int k, const char* outcome) {
   if (c_str(sobj[k]) != v) X("sig=str-content line=%zu what=c_str() is not the buffer", lineno);
   if (!eq(sobj[k], $S(rtxt[k])) || cmp(sobj[k], $S(rtxt[k])) != 0 || cmp($S(rtxt[k]), sobj[k]) != 0)
     X("sig=str-cmp line=%zu what=after %s the String does not compare equal to the libc reference text", lineno, name);
-  if (hash(sobj[k]) != hash_data(rtxt[k], rl)) X("sig=str-hash line=%zu what=after %s hash() differs from the hash of the libc reference text", lineno, name);
+  uint64_t hv = hash(sobj[k]);
+  if (hv != hash_data(rtxt[k], rl)) X("sig=str-hash line=%zu what=after %s hash() differs from the hash of the libc reference text", lineno, name);
+  judge_hash("after", name, hv, rtxt[k], rl);
+  /* the same observers against the harness's own byte loops (unsigned bytes), not only against themselves */
+  if (ref_len(rtxt[k]) != rl || len(sobj[k]) != ref_len(rtxt[k])) X("sig=str-len line=%zu what=after %s len() is %zu, counting the reference's bytes gives %zu", lineno, name, len(sobj[k]), ref_len(rtxt[k]));
+  if (!ref_eq(v, rtxt[k]) && l == rl) X("sig=str-content line=%zu what=after %s the chars differ from the reference (byte loop)", lineno, name);
 }
 
 static int sign(int x) { return x < 0 ? -1 : x > 0 ? 1 : 0; }
@@ -309,6 +451,7 @@ static void alias_op(const char* what, long off, const char* srct, const char* t
 int main(int argc, char** argv) {
   v_init();
   if (argc < 2) { fprintf(stderr, "usage: h_str <opfile>\n"); return 2; }
+  ref_selftest();
   size_t n; char** lines = v_read_lines(argv[1], &n);
 #ifndef V_ASAN
   I("warning: built without AddressSanitizer: cap is malloc_usable_size (an upper bound), overflow detection is off");
@@ -542,6 +685,7 @@ int main(int argc, char** argv) {
       size_t r = len(sobj[k]);
       O("len %d %zu", k, r);
       if (r != strlen(rtxt[k])) X("sig=str-len line=%zu what=len() is %zu, libc says %zu", lineno, r, strlen(rtxt[k]));
+      if (r != ref_len(rtxt[k])) X("sig=str-len line=%zu what=len() is %zu, counting the reference's bytes gives %zu", lineno, r, ref_len(rtxt[k]));
     } else if (!strcmp(op, "cstr") && nt == 2) {
       NEED_LIVE(k); nobs++;
       char* c = c_str(sobj[k]);
@@ -551,22 +695,35 @@ int main(int argc, char** argv) {
       NEED_LIVE(k); NEED_TEXT(2, t1); nobs++;
       if (op[0] == 'c') { int r = sign(cmp(sobj[k], $S(t1))); O("cmp %d %d", k, r);
         if (r != sign(strcmp(rtxt[k], t1))) X("sig=str-cmp line=%zu what=cmp gives %d, strcmp on the reference %d", lineno, r, sign(strcmp(rtxt[k], t1)));
+        if (r != ref_cmp(rtxt[k], t1)) X("sig=str-cmp line=%zu what=cmp gives %d, the first differing bytes as unsigned char say %d", lineno, r, ref_cmp(rtxt[k], t1));
+        if (sign(strcmp(rtxt[k], t1)) != ref_cmp(rtxt[k], t1)) I("warning line=%zu this libc's strcmp (%d) is not the unsigned-byte order (%d)", lineno, sign(strcmp(rtxt[k], t1)), ref_cmp(rtxt[k], t1));
+        if (le(sobj[k], $S(t1)) != (r <= 0) || ge(sobj[k], $S(t1)) != (r >= 0)) X("sig=str-cmp line=%zu what=le/ge disagree with cmp", lineno);
+        if ((r == 0) != (bool)eq(sobj[k], $S(t1))) X("sig=str-cmp line=%zu what=cmp is %d but eq says %d", lineno, r, (int)eq(sobj[k], $S(t1)));
+        if (r == 0 && hash(sobj[k]) != hash($S(t1))) X("sig=str-hash line=%zu what=equal texts hash differently", lineno);
         int r2 = sign(cmp($S(t1), sobj[k])); if (r2 != -r) X("sig=str-cmp line=%zu what=cmp is not antisymmetric (%d, %d)", lineno, r, r2);
         if (lt(sobj[k], $S(t1)) != (r < 0) || gt(sobj[k], $S(t1)) != (r > 0)) X("sig=str-cmp line=%zu what=lt/gt disagree with cmp", lineno); }
       else if (op[0] == 'e') { int r = eq(sobj[k], $S(t1)); O("eq %d %d", k, r);
         if (r != (strcmp(rtxt[k], t1) == 0)) X("sig=str-cmp line=%zu what=eq gives %d, strcmp on the reference says %d", lineno, r, strcmp(rtxt[k], t1) == 0);
+        if (r != ref_eq(rtxt[k], t1)) X("sig=str-cmp line=%zu what=eq gives %d, comparing the bytes says %d", lineno, r, ref_eq(rtxt[k], t1));
+        if (eq($S(t1), sobj[k]) != r) X("sig=str-cmp line=%zu what=eq is not symmetric", lineno);
         if (neq(sobj[k], $S(t1)) == r) X("sig=str-cmp line=%zu what=neq is not the negation of eq", lineno); }
       else { int r = mem(sobj[k], $S(t1)); O("mem %d %d", k, r);
-        if (r != (strstr(rtxt[k], t1) != NULL)) X("sig=str-mem line=%zu what=mem gives %d, strstr on the reference says %d", lineno, r, strstr(rtxt[k], t1) != NULL); }
+        if (r != (strstr(rtxt[k], t1) != NULL)) X("sig=str-mem line=%zu what=mem gives %d, strstr on the reference says %d", lineno, r, strstr(rtxt[k], t1) != NULL);
+        if (r != ref_mem(rtxt[k], t1)) X("sig=str-mem line=%zu what=mem gives %d, trying every start in the reference says %d", lineno, r, ref_mem(rtxt[k], t1)); }
     } else if (!strcmp(op, "cmps") && nt == 3) {
       NEED_LIVE(k); NEED_OBJ(2); nobs++;
       int r = sign(cmp(sobj[k], sobj[j])); O("cmps %d %d", k, r);
       if (r != sign(strcmp(rtxt[k], rtxt[j]))) X("sig=str-cmp line=%zu what=cmp of two heap Strings gives %d, strcmp %d", lineno, r, sign(strcmp(rtxt[k], rtxt[j])));
+      if (r != ref_cmp(rtxt[k], rtxt[j])) X("sig=str-cmp line=%zu what=cmp of two heap Strings gives %d, the first differing bytes as unsigned char say %d", lineno, r, ref_cmp(rtxt[k], rtxt[j]));
+      if (sign(cmp(sobj[j], sobj[k])) != -r) X("sig=str-cmp line=%zu what=cmp of two heap Strings is not antisymmetric", lineno);
+      if ((bool)eq(sobj[k], sobj[j]) != (r == 0)) X("sig=str-cmp line=%zu what=eq of two heap Strings disagrees with cmp", lineno);
     } else if (!strcmp(op, "hash") && nt == 2) {
       NEED_LIVE(k); nobs++;
       uint64_t h = hash(sobj[k]), h2 = hash($S(rtxt[k])), h3 = hash_data(rtxt[k], strlen(rtxt[k]));
       O("hash %d %016llx %s", k, (unsigned long long)h, (h == h2 && h == h3) ? "same" : "diff");
       if (h != h2 || h != h3) X("sig=str-hash line=%zu what=hash of the heap String differs from the hash of an equal stack String / of its bytes", lineno);
+      judge_hash("op", "hash:", h, rtxt[k], strlen(rtxt[k]));
+      if (!ref_broken && h2 != ref_murmur_a(rtxt[k], strlen(rtxt[k]))) X("sig=str-hash-value line=%zu what=hash() of the stack String $S(reference text) of %zu chars is %016llx, MurmurHash64A of those bytes is %016llx", lineno, strlen(rtxt[k]), (unsigned long long)h2, (unsigned long long)ref_murmur_a(rtxt[k], strlen(rtxt[k])));
     } else {
       O("bad-op");
     }
@@ -574,5 +731,6 @@ int main(int argc, char** argv) {
     free(copyl);
   }
   I("ops=%zu mutations=%zu observations=%zu raised=%zu maxlen=%zu", nops, nmut, nobs, nexc, maxlen);
+  I("hashstat judged=%zu wrong=%zu texts=%zu equal-length-equal-hash=%zu reference=%s", n_hash_judged, n_hash_wrong, coll_texts, coll_pairs, ref_broken ? "BROKEN" : "ok");
   return 0;
 }
